@@ -40,6 +40,17 @@ function main() -> void { for (int i = 0; i < 3; i = i + 1) { N a = new N(i); N 
 function main() -> void { A a = new A(); echo(a.f(1)); echo(a.f(2L)); echo(a.f(1.5f)); long w = 3; echo(a.f(w)); }""",
 }
 
+# generic code whose type-parameter names coincide with concrete class names, with allocations of the concrete class before and after
+# allocations made inside the generic context, and the same generic class bound to different arguments in different orders
+PROGRAMS["generic-param-named-like-class"] = """class Item { public int weight = 1; public constructor() -> Item = default; }
+class Heavy { public int weight = 50; public constructor() -> Heavy = default; }
+class Stack<Item> { public Item top; public constructor() -> Stack<Item> = default; public function push(Item x) -> Stack<Item> { Stack<Item> s = new Stack<Item>(); s.top = x; return s; } }
+function main() -> void { Item first = new Item(); echo(first.weight); Stack<Heavy> s = new Stack<Heavy>(); s = s.push(new Heavy()); echo(s.top.weight); Item again = new Item(); echo(again.weight); }"""
+PROGRAMS["generic-two-bindings"] = """class A { public int id = 1; public constructor() -> A = default; }
+class B { public int id = 2; public constructor() -> B = default; }
+class Pair<A, B> { public A l; public B r; public constructor(A x, B y) -> Pair<A, B> { this.l = x; this.r = y; } public function swap() -> Pair<B, A> { return new Pair<B, A>(this.r, this.l); } }
+function main() -> void { A a0 = new A(); echo(a0.id); Pair<B, A> p = new Pair<B, A>(new B(), new A()); echo(p.l.id); Pair<A, B> q = p.swap(); echo(q.l.id); B b0 = new B(); echo(b0.id); A a1 = new A(); echo(a1.id); }"""
+
 # Programs at the edge of what the analyser accepts (array sizes named by finals whose value is only known at run time,
 # sizes that differ from call to call): wherever such a program IS accepted it is in the property's domain and must be
 # shot-isolated; where the analyser rejects it, it is outside the domain and skipped (counted in the evidence).
